@@ -20,7 +20,7 @@ func runC18(c *Ctx) {
 	r.Rule("one-response", "in handleMessage: from the call of HandleRequest every path to the return sends exactly one response; from the call of HandleNotification none; on every path at most one; every send is control-dependent on an `id != nil` test")
 	r.Rule("framing", "the writer field is used only in sendMessage, with the write mutex held for both writes; the header is Sprintf(\"Content-Length: %d\\r\\n\\r\\n\", len(content)) for the same content value that is written next")
 	r.Rule("doc-lock", "the documents map of DocumentManager is read under its RWMutex and written under the write lock (guarded-by rule restricted to pkg/lsp)")
-	r.Rule("mirror-coupling", "Document.Lines is always the split of Document.Content: every store to Content is followed in the same block by a store of splitLines(<that content>) into Lines of the same document, and applyChange receives Content and Lines loaded from the same document at the call")
+	r.Rule("mirror-coupling", "Document.Lines is always the split of Document.Content: every store to Content is followed, in the same block or on every path before the lines are read, the document is handed on or the function returns, by a store of splitLines(<that content>) into Lines of the same document, and applyChange receives Content and Lines loaded from the same document at the call")
 	r.Rule("bounds", "index/slice expressions of pkg/lsp are within bounds by a dominating guard (same engine as C01) or audited")
 	srv := p.Method("pkg/lsp", "Server", "handleMessage")
 	run := p.Method("pkg/lsp", "Server", "Run")
@@ -166,6 +166,11 @@ func c18Mirror(c *Ctx, p *core.Prog) {
 						if c18Coupled(x.Val, st.Val, map[[2]ssa.Value]bool{}) {
 							ok2 = true
 						}
+					}
+					if !ok2 && c18SplitOnEveryPath(b, i+1, fa.X, map[*ssa.BasicBlock]bool{}) {
+						// both arms of a branch assign Content and the join re-splits it once: same effect, later block
+						r.OK("mirror-coupling", key, p.Pos(x.Pos()), "Lines re-split from the document's content on every path before the lines are used or the function returns")
+						continue
 					}
 					if ok2 {
 						r.OK("mirror-coupling", key, p.Pos(x.Pos()), "Lines re-split from the new content in the same block")
@@ -1197,4 +1202,56 @@ func c18Describe(v ssa.Value) string {
 		}
 	}
 	return v.String()
+}
+
+// c18SplitOnEveryPath: from instruction index `from` of block b, every path reaches a store of splitLines(<fresh load of
+// doc.Content>) into doc.Lines before it reaches a return, another store to doc.Content, a load of doc.Lines or a call
+// that is handed the document. A block met again on the way (loop) is taken as covered: a path that leaves the loop does so
+// through blocks examined here.
+func c18SplitOnEveryPath(b *ssa.BasicBlock, from int, doc ssa.Value, seen map[*ssa.BasicBlock]bool) bool {
+	isField := func(v ssa.Value, name string) bool {
+		fa, ok := v.(*ssa.FieldAddr)
+		return ok && fa.X == doc && core.FieldName(fa.X.Type(), fa.Field) == name
+	}
+	for _, in := range b.Instrs[from:] {
+		switch x := in.(type) {
+		case *ssa.Store:
+			if isField(x.Addr, "Lines") {
+				if call, ok := x.Val.(*ssa.Call); ok && call.Call.StaticCallee() != nil && call.Call.StaticCallee().Name() == "splitLines" && len(call.Call.Args) == 1 {
+					if u, ok := call.Call.Args[0].(*ssa.UnOp); ok && isField(u.X, "Content") {
+						return true
+					}
+				}
+				return false
+			}
+			if isField(x.Addr, "Content") {
+				return false
+			}
+		case *ssa.UnOp:
+			if x.Op == token.MUL && isField(x.X, "Lines") {
+				return false
+			}
+		case *ssa.Call:
+			for _, a := range x.Call.Args {
+				if a == doc {
+					return false
+				}
+			}
+		case *ssa.Return:
+			return false
+		}
+	}
+	if len(b.Succs) == 0 {
+		return false
+	}
+	for _, s := range b.Succs {
+		if seen[s] {
+			continue
+		}
+		seen[s] = true
+		if !c18SplitOnEveryPath(s, 0, doc, seen) {
+			return false
+		}
+	}
+	return true
 }
